@@ -13,9 +13,12 @@
 //! in the state.
 
 use crate::util::*;
-use poulpy_core::layouts::{Base2K, Degree, Dnum, Dsize, GGSW, GLWE, LWEInfos, Rank, TorusPrecision};
+use poulpy_core::layouts::{
+    Base2K, Degree, Dnum, Dsize, GGSW, GLWE, LWEInfos, Rank, TorusPrecision,
+};
 use poulpy_core::{
-    GGSWRotate, GLWEAdd, GLWECopy, GLWEMulXpMinusOne, GLWENegate, GLWENormalize, GLWERotate, GLWEShift, GLWESub, ScratchTakeCore,
+    GGSWRotate, GLWEAdd, GLWECopy, GLWEMulXpMinusOne, GLWENegate, GLWENormalize, GLWERotate,
+    GLWEShift, GLWESub, ScratchTakeCore,
 };
 use poulpy_hal::api::{VecZnxMulXpMinusOneAssignTmpBytes, VecZnxNormalizeTmpBytes};
 use poulpy_hal::layouts::{Module, Scratch, ZnxInfos, ZnxView, ZnxViewMut};
@@ -104,7 +107,12 @@ impl Op {
     pub fn uses_a(self) -> bool {
         !matches!(
             self,
-            Op::NegateAssign | Op::RotateAssign | Op::MulXpMinusOneAssign | Op::Rsh | Op::LshAssign | Op::NormalizeAssign
+            Op::NegateAssign
+                | Op::RotateAssign
+                | Op::MulXpMinusOneAssign
+                | Op::Rsh
+                | Op::LshAssign
+                | Op::NormalizeAssign
         )
     }
     pub fn uses_b(self) -> bool {
@@ -128,10 +136,16 @@ impl Op {
         )
     }
     pub fn is_rotation(self) -> bool {
-        matches!(self, Op::Rotate | Op::RotateAssign | Op::MulXpMinusOne | Op::MulXpMinusOneAssign)
+        matches!(
+            self,
+            Op::Rotate | Op::RotateAssign | Op::MulXpMinusOne | Op::MulXpMinusOneAssign
+        )
     }
     pub fn is_shift(self) -> bool {
-        matches!(self, Op::Rsh | Op::LshAssign | Op::Lsh | Op::LshAdd | Op::LshSub)
+        matches!(
+            self,
+            Op::Rsh | Op::LshAssign | Op::Lsh | Op::LshAdd | Op::LshSub
+        )
     }
     /// the operation re-normalises (so un-normalised operand digits are admissible)
     pub fn normalises(self) -> bool {
@@ -188,15 +202,70 @@ fn sat_add(a: u128, b: u128) -> u128 {
 /// error of operand `a` (t_a units of 2^-(a_bits)) after multiplication by 2^k, in units of 2^-(r_bits), rounded up
 fn conv_units(t_a: u128, a_bits: usize, r_bits: usize, k: usize) -> u128 {
     let e = r_bits as i64 + k as i64 - a_bits as i64;
-    if e >= 0 { sat_shl(t_a, e as usize) } else { ceil_shr(t_a, (-e) as usize) }
+    if e >= 0 {
+        sat_shl(t_a, e as usize)
+    } else {
+        ceil_shr(t_a, (-e) as usize)
+    }
 }
 
 /// Tolerance (in units of the result's last limb, per column and coefficient) the property grants:
 /// one unit per truncated operand, plus the propagated tolerance of the operands (E2).
 #[allow(clippy::too_many_arguments)]
-pub fn tolerance_units(op: Op, p: i64, r_bits: usize, a_bits: usize, b_bits: usize, t_r: u128, t_a: u128, t_b: u128) -> u128 {
-    let tr_a = (a_bits > r_bits) as u128;
-    let tr_b = (b_bits > r_bits) as u128;
+pub fn tolerance_units(
+    op: Op,
+    p: i64,
+    r_bits: usize,
+    a_bits: usize,
+    b_bits: usize,
+    t_r: u128,
+    t_a: u128,
+    t_b: u128,
+) -> u128 {
+    tolerance_units_tr(
+        op,
+        p,
+        r_bits,
+        a_bits,
+        b_bits,
+        t_r,
+        t_a,
+        t_b,
+        (a_bits > r_bits) as u128,
+        (b_bits > r_bits) as u128,
+    )
+}
+
+/// Units lost by cutting the limbs of `g` beyond `keep` in a limb-wise operation: |tail| <= D / (2^b - 1) units of
+/// the last kept limb, D = largest digit magnitude among the cut limbs (1 unit for normalised digits).
+pub fn truncation_units(g: &GLWE<Vec<u8>>, keep: usize) -> u128 {
+    let b = g.base2k().0 as usize;
+    let mut d: u64 = 0;
+    for i in 0..g.data().cols() {
+        for j in keep..g.size() {
+            for x in g.data().at(i, j) {
+                d = d.max(x.unsigned_abs());
+            }
+        }
+    }
+    let m = (1u128 << b) - 1;
+    (d as u128).div_ceil(m)
+}
+
+/// same with explicit truncation allowances of the operands (units of the result's last limb)
+#[allow(clippy::too_many_arguments)]
+pub fn tolerance_units_tr(
+    op: Op,
+    p: i64,
+    r_bits: usize,
+    a_bits: usize,
+    b_bits: usize,
+    t_r: u128,
+    t_a: u128,
+    t_b: u128,
+    tr_a: u128,
+    tr_b: u128,
+) -> u128 {
     let ca = sat_add(conv_units(t_a, a_bits, r_bits, 0), tr_a);
     let cb = sat_add(conv_units(t_b, b_bits, r_bits, 0), tr_b);
     let k = p.unsigned_abs() as usize;
@@ -216,7 +285,10 @@ pub fn tolerance_units(op: Op, p: i64, r_bits: usize, a_bits: usize, b_bits: usi
         }
         Op::LshAssign => sat_shl(t_r, k),
         Op::Lsh | Op::LshAdd | Op::LshSub => {
-            let e = sat_add(conv_units(t_a, a_bits, r_bits, k), (a_bits as i64 - k as i64 > r_bits as i64) as u128);
+            let e = sat_add(
+                conv_units(t_a, a_bits, r_bits, k),
+                (a_bits as i64 - k as i64 > r_bits as i64) as u128,
+            );
             if op == Op::Lsh { e } else { sat_add(t_r, e) }
         }
     }
@@ -250,8 +322,15 @@ pub fn apply(op: Op, p: i64, r0: &Poly, a: &Poly, b: &Poly) -> Poly {
 
 /// issues the real call
 #[allow(clippy::too_many_arguments)]
-pub fn call<B: Bk>(m: &Module<B>, op: Op, p: i64, res: &mut GLWE<Vec<u8>>, a: &GLWE<Vec<u8>>, b: &GLWE<Vec<u8>>, sg: usize)
-where
+pub fn call<B: Bk>(
+    m: &Module<B>,
+    op: Op,
+    p: i64,
+    res: &mut GLWE<Vec<u8>>,
+    a: &GLWE<Vec<u8>>,
+    b: &GLWE<Vec<u8>>,
+    sg: usize,
+) where
     Module<B>: HalAll<B> + CoreAll<B>,
     Scratch<B>: ScratchTakeCore<B>,
 {
@@ -315,7 +394,13 @@ fn cols_scaled(g: &GLWE<Vec<u8>>, ncols: usize, l: usize) -> Vec<Poly> {
     let bits = g.size() * b;
     let n = g.n().0 as usize;
     (0..ncols)
-        .map(|i| if i < g.data().cols() { pshl(&col_vals(g.data(), i, b), l - bits) } else { pzero(n) })
+        .map(|i| {
+            if i < g.data().cols() {
+                pshl(&col_vals(g.data(), i, b), l - bits)
+            } else {
+                pzero(n)
+            }
+        })
         .collect()
 }
 
@@ -327,9 +412,22 @@ fn phase_scaled(g: &GLWE<Vec<u8>>, sk: &[Vec<i64>], l: usize) -> Poly {
 }
 
 /// index-level limb model of the limb-wise operations (zero extension of missing limbs / columns)
-fn limb_model(op: Op, p: i64, n: usize, j: usize, i: usize, r0: &GLWE<Vec<u8>>, a: &GLWE<Vec<u8>>, b: &GLWE<Vec<u8>>) -> Vec<i64> {
+fn limb_model(
+    op: Op,
+    p: i64,
+    n: usize,
+    j: usize,
+    i: usize,
+    r0: &GLWE<Vec<u8>>,
+    a: &GLWE<Vec<u8>>,
+    b: &GLWE<Vec<u8>>,
+) -> Vec<i64> {
     let get = |g: &GLWE<Vec<u8>>| -> Vec<i64> {
-        if i < g.data().cols() && j < g.size() { g.data().at(i, j).to_vec() } else { vec![0i64; n] }
+        if i < g.data().cols() && j < g.size() {
+            g.data().at(i, j).to_vec()
+        } else {
+            vec![0i64; n]
+        }
     };
     match op {
         Op::AddInto => ring::add(&get(a), &get(b)),
@@ -364,8 +462,16 @@ pub fn judge(
     let n = res.n().0 as usize;
     let rb = res.base2k().0 as usize;
     let r_bits = res.size() * rb;
-    let a_bits = if op.uses_a() { a.size() * a.base2k().0 as usize } else { 0 };
-    let b_bits = if op.uses_b() { b.size() * b.base2k().0 as usize } else { 0 };
+    let a_bits = if op.uses_a() {
+        a.size() * a.base2k().0 as usize
+    } else {
+        0
+    };
+    let b_bits = if op.uses_b() {
+        b.size() * b.base2k().0 as usize
+    } else {
+        0
+    };
     let k = p.unsigned_abs() as usize;
     let l = r_bits.max(a_bits).max(b_bits) + if op == Op::Rsh { k } else { 0 } + 2;
     let t = tolerance_units(op, p, r_bits, a_bits, b_bits, 0, 0, 0);
@@ -374,7 +480,10 @@ pub fn judge(
     let zero_glwe;
     let (aa, bb): (&GLWE<Vec<u8>>, &GLWE<Vec<u8>>) = {
         zero_glwe = glwe_alloc(n, rb, 1, 0);
-        (if op.uses_a() { a } else { &zero_glwe }, if op.uses_b() { b } else { &zero_glwe })
+        (
+            if op.uses_a() { a } else { &zero_glwe },
+            if op.uses_b() { b } else { &zero_glwe },
+        )
     };
     if columns {
         let rc = cols_scaled(r0, ncols, l);
@@ -420,7 +529,10 @@ pub fn judge(
                                 index: at,
                                 err_units: f64::NAN,
                                 tol_units: 0.0,
-                                why: format!("limb {j} of column {i}: got {} want {}", got[at], want[at]),
+                                why: format!(
+                                    "limb {j} of column {i}: got {} want {}",
+                                    got[at], want[at]
+                                ),
                             }),
                         );
                     }
@@ -483,14 +595,22 @@ impl Case {
         if self.op.is_rotation() {
             (-4 * n..=4 * n).collect()
         } else if self.op.is_shift() {
-            let top = if self.op.uses_a() { self.rs.max(self.a_s) } else { self.rs };
+            let top = if self.op.uses_a() {
+                self.rs.max(self.a_s)
+            } else {
+                self.rs
+            };
             (0..=((top + 2) * self.b) as i64).collect()
         } else {
             vec![0]
         }
     }
     fn classes(&self) -> &'static [usize] {
-        if self.op.normalises() { &[0, 2, 3] } else { &[0, 1] }
+        if self.op.normalises() {
+            &[0, 2, 3]
+        } else {
+            &[0, 1]
+        }
     }
 }
 
@@ -526,7 +646,8 @@ where
                         continue;
                     }
                 }
-                let mut rng = Rng::new(seed, key ^ ((p as u64) << 8) ^ ((g as u64) << 4) ^ v as u64);
+                let mut rng =
+                    Rng::new(seed, key ^ ((p as u64) << 8) ^ ((g as u64) << 4) ^ v as u64);
                 let mut a = glwe_alloc(c.n, c.b, c.a_s, c.ra);
                 let mut b = glwe_alloc(c.n, c.b, c.bs, c.rb);
                 fill_class(a.data_mut(), c.b, v, &mut rng);
@@ -549,14 +670,21 @@ where
                     o.insert("backend".into(), json!(B::NAME));
                     o.insert("case".into(), serde_json::to_value(c).unwrap());
                     o.insert("inner".into(), inner.clone());
-                    o.insert("res_rank_gt_a_rank".into(), json!(c.op.uses_a() && c.rr > c.ra));
+                    o.insert(
+                        "res_rank_gt_a_rank".into(),
+                        json!(c.op.uses_a() && c.rr > c.ra),
+                    );
                     o.insert("a_rank_zero".into(), json!(c.op.uses_a() && c.ra == 0));
                     o.insert("cross_radix".into(), json!(c.b != c.b_out));
                     o.insert("input_normalised".into(), json!(v != 3));
                     o.insert("offset_negative".into(), json!(c.op == Op::Rsh && k > 0));
                     o.insert(
                         "shift_beyond_output_bits".into(),
-                        json!(if c.op == Op::Rsh { (k - r_bits).max(0) } else { 0 }),
+                        json!(if c.op == Op::Rsh {
+                            (k - r_bits).max(0)
+                        } else {
+                            0
+                        }),
                     );
                 };
                 if let Err(msg) = out {
@@ -575,15 +703,24 @@ where
                     json!({"kind": v.kind, "level": v.level, "col": v.col, "index": v.index, "err_units": v.err_units,
                         "tol_units": v.tol_units, "why": v.why})
                 });
-                if bad.is_none() && matches!(c.op, Op::Normalize | Op::NormalizeAssign) && c.b != c.b_out && digits_in_range(&res).is_some() {
+                if bad.is_none()
+                    && matches!(c.op, Op::Normalize | Op::NormalizeAssign)
+                    && c.b != c.b_out
+                    && digits_in_range(&res).is_some()
+                {
                     // R4 demands the digit range for equal radices only; cross-radix outputs with digits outside
                     // [-2^(b-1), 2^(b-1)) are counted as an observation
                     rec.add("cross_radix_results_with_out_of_range_digits", 1);
                 }
-                if bad.is_none() && matches!(c.op, Op::Normalize | Op::NormalizeAssign) && c.b == c.b_out {
+                if bad.is_none()
+                    && matches!(c.op, Op::Normalize | Op::NormalizeAssign)
+                    && c.b == c.b_out
+                {
                     if let Some((i, j, d)) = digits_in_range(&res) {
-                        bad = Some(json!({"kind": "not_normalised", "level": "limb", "col": i, "limb": j,
-                            "why": format!("digit {d} outside [-2^(b-1), 2^(b-1)) after normalisation")}));
+                        bad = Some(
+                            json!({"kind": "not_normalised", "level": "limb", "col": i, "limb": j,
+                            "why": format!("digit {d} outside [-2^(b-1), 2^(b-1)) after normalisation")}),
+                        );
                     }
                 }
                 match bad {
@@ -659,7 +796,12 @@ fn cases<B: Bk>(tier: Tier) -> Vec<Case> {
                                 if !tier.is_thorough() && op.is_rotation() && n == 16 && rr == 3 {
                                     continue;
                                 }
-                                if !tier.is_thorough() && op.is_shift() && n == 16 && b == 17 && rr == 3 {
+                                if !tier.is_thorough()
+                                    && op.is_shift()
+                                    && n == 16
+                                    && b == 17
+                                    && rr == 3
+                                {
                                     continue;
                                 }
                                 out.push(Case {
@@ -718,7 +860,14 @@ pub struct GgswCase {
     pub dnum_a: usize,
 }
 
-fn ggsw_alloc(n: usize, b: usize, size: usize, rank: usize, dnum: usize, dsize: usize) -> GGSW<Vec<u8>> {
+fn ggsw_alloc(
+    n: usize,
+    b: usize,
+    size: usize,
+    rank: usize,
+    dnum: usize,
+    dsize: usize,
+) -> GGSW<Vec<u8>> {
     GGSW::alloc(
         Degree(n as u32),
         Base2K(b as u32),
@@ -773,17 +922,22 @@ where
                 }
             }
             // prior cells as owned GLWE (inputs of the in-place form)
-            let cell_glwe = |x: &GGSW<Vec<u8>>, size: usize, row: usize, col: usize| -> GLWE<Vec<u8>> {
-                let mut out = glwe_alloc(c.n, c.b, size, c.rank);
-                let src = x.at(row, col);
-                for i in 0..cols {
-                    for j in 0..size {
-                        out.data_mut().at_mut(i, j).copy_from_slice(src.data().at(i, j));
+            let cell_glwe =
+                |x: &GGSW<Vec<u8>>, size: usize, row: usize, col: usize| -> GLWE<Vec<u8>> {
+                    let mut out = glwe_alloc(c.n, c.b, size, c.rank);
+                    let src = x.at(row, col);
+                    for i in 0..cols {
+                        for j in 0..size {
+                            out.data_mut()
+                                .at_mut(i, j)
+                                .copy_from_slice(src.data().at(i, j));
+                        }
                     }
-                }
-                out
-            };
-            let prior: Vec<GLWE<Vec<u8>>> = (0..c.dnum_r * cols).map(|x| cell_glwe(&res, c.rs, x / cols, x % cols)).collect();
+                    out
+                };
+            let prior: Vec<GLWE<Vec<u8>>> = (0..c.dnum_r * cols)
+                .map(|x| cell_glwe(&res, c.rs, x / cols, x % cols))
+                .collect();
             let out = guarded(|| {
                 let bytes = m.ggsw_rotate_tmp_bytes() + 256;
                 with_scratch::<B, _>(bytes, g, |s| {
@@ -796,7 +950,11 @@ where
             });
             rec.evals(1);
             let inner = json!({"p": p, "g": g});
-            let opname = if c.assign { "ggsw_rotate_assign" } else { "ggsw_rotate" };
+            let opname = if c.assign {
+                "ggsw_rotate_assign"
+            } else {
+                "ggsw_rotate"
+            };
             if let Err(msg) = out {
                 if !reported {
                     reported = true;
@@ -804,7 +962,11 @@ where
                 }
                 continue;
             }
-            let op = if c.assign { Op::RotateAssign } else { Op::Rotate };
+            let op = if c.assign {
+                Op::RotateAssign
+            } else {
+                Op::Rotate
+            };
             let dummy = glwe_alloc(c.n, c.b, 1, 0);
             'cells: for row in 0..c.dnum_r {
                 for col in 0..cols {
@@ -838,8 +1000,13 @@ fn ggsw_cases<B: Bk>(tier: Tier) -> Vec<GgswCase> {
                             // GGSW::alloc demands size > dsize and dnum*dsize <= size
                             for dsize in 1..rs.min(if assign { rs } else { a_s }) {
                                 for dnum_r in 1..=rs / dsize {
-                                    for dnum_a in dnum_r..=(if assign { dnum_r } else { a_s / dsize }) {
-                                        if !tier.is_thorough() && n == 16 && (rank > 0 && rs + a_s > 5) {
+                                    for dnum_a in
+                                        dnum_r..=(if assign { dnum_r } else { a_s / dsize })
+                                    {
+                                        if !tier.is_thorough()
+                                            && n == 16
+                                            && (rank > 0 && rs + a_s > 5)
+                                        {
                                             continue;
                                         }
                                         out.push(GgswCase {
@@ -928,7 +1095,10 @@ pub struct PState {
 
 impl PState {
     fn key(&self) -> Vec<(u8, u8, u8)> {
-        self.regs.iter().map(|r| ((r.ct.data().cols() - 1) as u8, r.ct.size() as u8, r.kc)).collect()
+        self.regs
+            .iter()
+            .map(|r| ((r.ct.data().cols() - 1) as u8, r.ct.size() as u8, r.kc))
+            .collect()
     }
 }
 
@@ -948,7 +1118,13 @@ impl Eq for PState {}
 
 impl std::fmt::Debug for PState {
     fn fmt(&self, f: &mut std::fmt::Formatter<'_>) -> std::fmt::Result {
-        write!(f, "PState(depth {}, key {:?}, trace {:?})", self.depth, self.key(), self.trace)
+        write!(
+            f,
+            "PState(depth {}, key {:?}, trace {:?})",
+            self.depth,
+            self.key(),
+            self.trace
+        )
     }
 }
 
@@ -976,7 +1152,13 @@ where
     Module<B>: HalAll<B> + CoreAll<B>,
     Scratch<B>: ScratchTakeCore<B>,
 {
-    pub fn new(n: usize, b: usize, max_depth: u8, inits: Vec<Vec<(usize, usize)>>, seed: u64) -> Self {
+    pub fn new(
+        n: usize,
+        b: usize,
+        max_depth: u8,
+        inits: Vec<Vec<(usize, usize)>>,
+        seed: u64,
+    ) -> Self {
         Programs {
             module: B::module(n),
             n,
@@ -996,7 +1178,10 @@ where
 
     pub fn init_state(&self, idx: usize) -> PState {
         let shape = &self.inits[idx];
-        let mut rng = Rng::new(self.seed, 0xE2 ^ ((idx as u64) << 8) ^ ((self.n as u64) << 32) ^ ((self.b as u64) << 40));
+        let mut rng = Rng::new(
+            self.seed,
+            0xE2 ^ ((idx as u64) << 8) ^ ((self.n as u64) << 32) ^ ((self.b as u64) << 40),
+        );
         let regs = shape
             .iter()
             .enumerate()
@@ -1004,7 +1189,12 @@ where
                 let mut ct = glwe_alloc(self.n, self.b, size, rank);
                 fill_class(ct.data_mut(), self.b, if i == 1 { 1 } else { 0 }, &mut rng);
                 let model = phase_scaled(&ct, &self.sk, self.l);
-                Reg { ct, model, t: 0, kc: 0 }
+                Reg {
+                    ct,
+                    model,
+                    t: 0,
+                    kc: 0,
+                }
             })
             .collect();
         PState {
@@ -1034,14 +1224,42 @@ where
         let op = act.op;
         let (ra, rb) = (&s.regs[act.a], &s.regs[act.b]);
         let r_bits = s.regs[act.r].ct.size() * self.b;
-        let a_bits = if op.uses_a() { ra.ct.size() * self.b } else { 0 };
-        let b_bits = if op.uses_b() { rb.ct.size() * self.b } else { 0 };
+        let a_bits = if op.uses_a() {
+            ra.ct.size() * self.b
+        } else {
+            0
+        };
+        let b_bits = if op.uses_b() {
+            rb.ct.size() * self.b
+        } else {
+            0
+        };
         let (t_r, t_a, t_b) = (
             if op.reads_res() { s.regs[act.r].t } else { 0 },
             if op.uses_a() { ra.t } else { 0 },
             if op.uses_b() { rb.t } else { 0 },
         );
-        let t_new = tolerance_units(op, act.p, r_bits, a_bits, b_bits, t_r, t_a, t_b);
+        // registers may hold un-normalised digits (sums): the tail cut off by a limb-wise operation is bounded from
+        // the actual digits; the abstract class below keeps the one-unit rule (a function of the key only)
+        let r_size = s.regs[act.r].ct.size();
+        let (tr_a, tr_b) = if op.limbwise() {
+            (
+                if op.uses_a() && a_bits > r_bits {
+                    truncation_units(&ra.ct, r_size)
+                } else {
+                    0
+                },
+                if op.uses_b() && b_bits > r_bits {
+                    truncation_units(&rb.ct, r_size)
+                } else {
+                    0
+                },
+            )
+        } else {
+            ((a_bits > r_bits) as u128, (b_bits > r_bits) as u128)
+        };
+        let t_new =
+            tolerance_units_tr(op, act.p, r_bits, a_bits, b_bits, t_r, t_a, t_b, tr_a, tr_b);
         // abstract class: function of the key classes and the action only (sticky saturation)
         let kc = {
             let cls = |reg: &Reg, used: bool| -> Option<u128> {
@@ -1053,8 +1271,15 @@ where
                     Some(reg.kc as u128)
                 }
             };
-            match (cls(&s.regs[act.r], op.reads_res()), cls(ra, op.uses_a()), cls(rb, op.uses_b())) {
-                (Some(x), Some(y), Some(z)) => tolerance_units(op, act.p, r_bits, a_bits, b_bits, x, y, z).min(CAP as u128) as u8,
+            match (
+                cls(&s.regs[act.r], op.reads_res()),
+                cls(ra, op.uses_a()),
+                cls(rb, op.uses_b()),
+            ) {
+                (Some(x), Some(y), Some(z)) => {
+                    tolerance_units(op, act.p, r_bits, a_bits, b_bits, x, y, z).min(CAP as u128)
+                        as u8
+                }
                 _ => CAP,
             }
         };
@@ -1094,9 +1319,22 @@ where
             let b_ct = glwe_clone(&rb.ct);
             let res = &mut next.regs[act.r].ct;
             if !op.reads_res() {
-                garbage(bytemuck_mut(res.data_mut().raw_mut()), (s.depth & 1) as usize);
+                garbage(
+                    bytemuck_mut(res.data_mut().raw_mut()),
+                    (s.depth & 1) as usize,
+                );
             }
-            let out = guarded(|| call::<B>(&self.module, op, act.p, res, &a_ct, &b_ct, (s.depth & 1) as usize));
+            let out = guarded(|| {
+                call::<B>(
+                    &self.module,
+                    op,
+                    act.p,
+                    res,
+                    &a_ct,
+                    &b_ct,
+                    (s.depth & 1) as usize,
+                )
+            });
             if let Err(msg) = out {
                 let d = self.describe(s, &next.trace, act, "panic", json!({"panic": msg}));
                 if record {
@@ -1116,7 +1354,10 @@ where
         let got = glwe_phase(next.regs[act.r].ct.data(), self.b, &self.sk[..rank]);
         let (worst, at) = max_torus_err(&got, r_bits, &want, self.l);
         let s_norm: u64 = 1 + (0..rank).map(|i| l1(&self.sk[i])).sum::<u64>();
-        if t_new >= T_INF || (IBig::from(t_new) * IBig::from(s_norm) << (self.l - r_bits)) >= (IBig::from(1) << (self.l - 1)) {
+        if t_new >= T_INF
+            || (IBig::from(t_new) * IBig::from(s_norm) << (self.l - r_bits))
+                >= (IBig::from(1) << (self.l - 1))
+        {
             // tolerance reaches half the torus: nothing can be decided on this transition
             self.loose.fetch_add(1, Ordering::Relaxed);
         } else {
@@ -1197,7 +1438,13 @@ where
             for p in self.params(op) {
                 for r in 0..nr {
                     if !op.uses_a() {
-                        out.push(Act { op, r, a: r, b: r, p });
+                        out.push(Act {
+                            op,
+                            r,
+                            a: r,
+                            b: r,
+                            p,
+                        });
                         continue;
                     }
                     for a in 0..nr {
@@ -1258,7 +1505,10 @@ where
     let seed = run.seed;
     let tier = run.tier;
     let depth: u8 = tier.pick(3, 4);
-    let grids: Vec<(usize, usize)> = tier.pick(vec![(8, 2), (16, 17)], vec![(8, 1), (8, 2), (8, 17), (16, 3), (16, 17)]);
+    let grids: Vec<(usize, usize)> = tier.pick(
+        vec![(8, 2), (16, 17)],
+        vec![(8, 1), (8, 2), (8, 17), (16, 3), (16, 17)],
+    );
     let name = format!("programs/{}", B::NAME);
     if !run.wants(&name) {
         return;
@@ -1344,12 +1594,15 @@ where
         match model.step(&s, act, false) {
             Ok(nx) => s = nx,
             Err(mut dd) => {
-                dd["note"] = json!("re-executed from the initial register file; under the parallel search the representative payload of a merged state may differ from the one of the original run");
+                dd["note"] = json!("re-executed from the initial register file");
                 rec.fail(dd);
                 return;
             }
         }
     }
+    eprintln!(
+        "[C02] program replay: the trace re-executed from its initial register file holds. (Under the parallel search a merged state is represented by the payload of the first path that reached its key; a violation that depends on that payload is re-found by re-running the family.)"
+    );
 }
 
 pub fn run(run: &mut Run) {
@@ -1357,6 +1610,8 @@ pub fn run(run: &mut Run) {
     run.assume("rank combinations are exactly those the API's assertions admit (e.g. add_into: equal ranks or one rank-0 operand; add_assign / lsh*: res.rank >= a.rank; sub_assign, sub_negate_assign, copy, rotate: equal or rank-0 operand); the phase of an operand of lower rank is taken under the first columns of the same clear secret");
     run.assume("operands of limb-wise operations hold normalised digits (then a truncated tail is below one unit of the last kept limb); operations that normalise (shifts, normalize) also get un-normalised digits in [-2^(b+1), 2^(b+1)] and carry-ripple patterns");
     run.assume("glwe_rsh is granted one unit of the last limb for every shift > 0 (it truncates in place); glwe_lsh* is exact whenever res_size*b >= a_size*b - k");
+    run.assume("division by 2^k is not a map of the torus: glwe_rsh divides the representative held by the digits. E1 therefore compares exact (unreduced) rational column values and phases; in E2 the reference phase is moved to the representative of the actual register (an integer polynomial, unambiguous while the tolerance is below 1/2) before the quotient is demanded");
+    run.assume("E2 registers may hold un-normalised digits (sums of ciphertexts): the tail a limb-wise operation cuts off is bounded from the actual digits (D/(2^b-1) units), one unit for normalised digits; transitions whose accumulated tolerance reaches half the torus are executed but counted as vacuous");
     for_backends!(fam_ops(run));
     for_backends!(fam_ggsw(run));
     for_backends!(fam_programs(run));
